@@ -22,8 +22,8 @@ var c18Features = []c18Feature{
 	{"drole", []string{"none", "row", "navigation", "other"}},
 	{"datatable", []string{"absent", "0", "1"}},
 	{"nested", []string{"no", "yes"}},
-	{"shape", []string{"3x4", "1x2", "2x1", "2x2", "2x4", "2x5", "4+4+2", "4+4+3", "19x2", "20x2"}},
-	{"header", []string{"none", "caption", "thead", "tfoot", "colgroup", "col", "th", "caption-empty", "th-empty"}},
+	{"shape", []string{"3x4", "1x2", "2x1", "2x2", "2x4", "2x5", "4+4+2", "4+4+3", "19x2", "20x2", "20x1+4x2", "19x1+5x2", "1+2+2", "2x1+1x5"}},
+	{"header", []string{"none", "caption", "thead", "tfoot", "colgroup", "col", "th", "caption-empty", "th-empty", "colgroup+th-empty", "col+th-empty", "th-empty-then-th"}},
 	{"cell", []string{"none", "abbr-attr", "headers-attr", "scope-attr", "abbr-lone", "abbr-plus"}},
 	{"summary", []string{"no", "yes"}},
 	{"embedded", []string{"none", "embed", "object", "applet", "iframe"}},
@@ -32,7 +32,22 @@ var c18Features = []c18Feature{
 var c18Contexts = []string{"body", "div", "li", "blockquote", "layout-cell", "after-abbr-table", "after-summary-table", "after-5col-table", "after-20row-table", "after-th-table", "after-layout-table"}
 
 func c18Rows(shape string) []int {
+	rep := func(n, c int) []int {
+		out := make([]int, n)
+		for i := range out {
+			out[i] = c
+		}
+		return out
+	}
 	switch shape {
+	case "20x1+4x2":
+		return append(rep(20, 1), rep(4, 2)...)
+	case "19x1+5x2":
+		return append(rep(19, 1), rep(5, 2)...)
+	case "1+2+2":
+		return []int{1, 2, 2}
+	case "2x1+1x5":
+		return []int{1, 1, 5}
 	case "4+4+2":
 		return []int{4, 4, 2}
 	case "4+4+3":
@@ -74,9 +89,9 @@ func c18Table(v []int, t *ora.Tok) string {
 		sb.WriteString("<caption>" + t.W(2) + "</caption>")
 	case "caption-empty":
 		sb.WriteString("<caption> </caption>")
-	case "colgroup":
+	case "colgroup", "colgroup+th-empty":
 		sb.WriteString("<colgroup></colgroup>")
-	case "col":
+	case "col", "col+th-empty":
 		sb.WriteString("<col>")
 	}
 	rows := c18Rows(f(5))
@@ -111,12 +126,12 @@ func c18Table(v []int, t *ora.Tok) string {
 		for ci := 0; ci < n; ci++ {
 			cellIdx++
 			tag := "td"
-			if ri == 0 && (hdr == "th" || hdr == "th-empty") {
+			if ri == 0 && (hdr == "th" || strings.Contains(hdr, "th-empty")) {
 				tag = "th"
 			}
 			open := "<" + tag
 			content := t.W(1)
-			if tag == "th" && hdr == "th-empty" {
+			if tag == "th" && strings.Contains(hdr, "th-empty") && !(hdr == "th-empty-then-th" && ci > 0) {
 				content = ""
 			}
 			if cellIdx == total { // last cell carries the cell feature (it is a td unless the table has one row)
@@ -426,7 +441,7 @@ func c18Check(c *eng.Case) *eng.Outcome {
 		o.Class = "ambiguous-th"
 		return o
 	}
-	if hdr == "caption-empty" || hdr == "th-empty" {
+	if hdr == "caption-empty" || hdr == "th-empty" || hdr == "th-empty-then-th" {
 		// the statement does not say whether an empty caption/th counts; observe only
 		o.Class = "observe-empty-header"
 	}
@@ -518,7 +533,7 @@ func init() {
 	eng.Register(&eng.Prop{
 		ID:        "C18",
 		DesignRef: "§5 C18",
-		Rule: "feature vectors editable{2} x table role{6} x descendant role{4} x datatable{3} x nested{2} x shape{10: 3x4,1x2,2x1,2x2,2x4,2x5,4+4+2,4+4+3,19x2,20x2} x header{9} x cell feature{6} x summary{2} x embedded{5} (1.56e6 vectors); " +
+		Rule: "feature vectors editable{2} x table role{6} x descendant role{4} x datatable{3} x nested{2} x shape{14: 3x4,1x2,2x1,2x2,2x4,2x5,4+4+2,4+4+3,19x2,20x2, 20 one-cell rows + 4 two-cell rows, 19+5, ragged 1+2+2, 1+1+5} x header{12} x cell feature{6} x summary{2} x embedded{5} (2.9e6 vectors); " +
 			"quick: every vector with <= 3 features off the default in body and <= 2 in {div, li, blockquote, layout-table cell, after an earlier table that is data by a cell attribute / summary / 5 columns / 20 rows / th, after an earlier layout table}; thorough: all vectors in body and <= 3 deviations in the other contexts. Each vector is rendered as a table after two content paragraphs. " +
 			"Oracle: the statement's 14-rule decision list evaluated on the parsed table vs. observation through the public API (a form-control probe in the first cell survives, inside a <table> together with the first and last cell words, iff the table was preserved as data). Vectors whose verdict depends on whether <th> counts as a cell, and empty caption/th, are observe-only. " +
 			"Non-trivial = >= 2 rule-relevant features set, or a threshold shape.",
